@@ -615,4 +615,29 @@ def r15_12(ctx):
     ctx.floor("R15.12", "stores to the cursors of array::IntoIter", n, 2)
 
 
-RULES = [("R15.1", r15_a), ("R15.2", r15_2), ("R15.3", r15_3), ("R15.4", r15_4), ("R15.5", r15_5), ("R15.6", r15_6), ("R15.7", r15_7), ("R15.8", r15_8), ("R15.9", r15_9), ("R15.10", r15_10), ("R15.11", r15_11), ("R15.12", r15_12)]
+def r15_13(ctx):
+    """the text of a document node is read under its type tag: string nodes and raw-number nodes both carry (pointer,
+    length), and only the tag tells them apart.  Every call of NodeInDom::unpack_str lies on a value arm of a dispatch on
+    `get_type()` (a test such as "has a length" admits raw numbers, which then turn into strings)"""
+    prog = ctx.prog()
+    sites = prog.callers_of(lambda t: callee_is(t, "unpack_str") and "NodeInDom" in t.get("callee", ""))
+    ctx.floor("R15.13", "reads of a document node's text", len(sites), 2)
+    seen = collections.Counter()
+    for f, b, t in sites:
+        ok = False
+        for sb, st in f.terms():
+            if st["k"] != "switch" or not f.dominates(sb, b) or op_local(st["discr"]) is None:
+                continue
+            sl, leaves = backward_slice(f, [op_local(st["discr"])], through_calls=False)
+            if not any(lf[0] == "call" and callee_is(lf[2], "get_type") for lf in leaves):
+                continue
+            arms = [x for v, x in st["targets"] if (x == b or f.dominates(x, b)) and b not in f.reachable_from(st["otherwise"], avoid={x})]
+            if arms:
+                ok = True
+        seen[short(f.id)] += 1
+        ctx.ob("R15.13", f"{short(f.id)}#{seen[short(f.id)]}", ok, f.loc(t["ln"]),
+               "the node's text is read on an arm of the dispatch on its type tag" if ok else
+               "the node's text is read without a dispatch on its type tag: a raw-number node is taken for a string (after a mutation of its parent it serialises with quotes and is_number() fails)")
+
+
+RULES = [("R15.1", r15_a), ("R15.2", r15_2), ("R15.3", r15_3), ("R15.4", r15_4), ("R15.5", r15_5), ("R15.6", r15_6), ("R15.7", r15_7), ("R15.8", r15_8), ("R15.9", r15_9), ("R15.10", r15_10), ("R15.11", r15_11), ("R15.12", r15_12), ("R15.13", r15_13)]
